@@ -529,6 +529,101 @@ def bit_laws(facts, res):
     res.floor(R, n, 25, "bit-provenance obligations")
 
 
+def level_locality(facts, res, cls="TbfMortonSpaceIndex", R="C11.6.level-locality"):
+    """The grid of level l has 2^l cells per dimension: everything a function of the ordering that takes a LEVEL computes - limits, wrap
+    moduli, masks - must come from that argument.  The tree height enters the ordering for the leaf level only (position -> leaf coordinate,
+    the ...AtLeafLevel helpers).  Decided by reachability: no function with a level parameter reaches, through same-class callees, a call of
+    getTreeHeight(), a height-only helper (no parameter, reads the height) or a data member that some function fills from the height."""
+    methods = [m for m in facts.methods_of(cls) if tbf.body(m) is not None and not m.get("inst")]
+    if not methods:
+        raise AnalysisBroken("%s: no methods" % cls)
+    byname = {}
+    for m in methods:
+        byname.setdefault(m["name"], []).append(m)
+    fields = set(f["name"] for c in facts.classes if c["name"] == cls for f in c.get("fields", []))
+
+    def reads_height(e):
+        return [x for x in walk(e) if x.get("k") in ("CallExpr", "CXXMemberCallExpr") and tbf.callee_name(x) == "getTreeHeight"]
+    height_helpers = {m["name"] for m in methods if not m["params"] and m["kind"] not in ("CXXConstructor", "CXXDestructor") and reads_height(tbf.body(m))}
+    changed = True
+    while changed:      # helpers of helpers
+        changed = False
+        for m in methods:
+            if not m["params"] and m["kind"] not in ("CXXConstructor", "CXXDestructor") and m["name"] not in height_helpers:
+                if any(x.get("k") in ("CallExpr", "CXXMemberCallExpr") and tbf.callee_name(x) in height_helpers for x in walk(tbf.body(m))):
+                    height_helpers.add(m["name"])
+                    changed = True
+    # members filled from the height (constructor bodies and initialiser lists included)
+    height_members = {}
+    for m in methods:
+        roots = [tbf.body(m)] + [c for i in m.get("inits", []) for c in i.get("c", []) if c]
+        tbf.link_parents(tbf.body(m))
+        tainted = set()
+        again = True
+        while again:
+            again = False
+            for r_ in roots:
+                for x in walk(r_):
+                    tgt = src = None
+                    if x.get("k") == "VarDecl" and kids(x):
+                        tgt, src = ("local", x["did"]), kids(x)[0]
+                    elif x.get("k") in ("BinaryOperator", "CompoundAssignOperator") and x.get("op", "").endswith("=") and x.get("op") not in ("==", "!=", "<=", ">="):
+                        l = strip(kids(x)[0])
+                        while l.get("k") in ("ArraySubscriptExpr", "CXXOperatorCallExpr") and len(kids(l)) >= 2:
+                            l = strip(kids(l)[-2])
+                        if l.get("k") in ("MemberExpr", "CXXDependentScopeMemberExpr") and l.get("name") in fields:
+                            tgt = ("member", l["name"])
+                        elif l.get("k") == "DeclRefExpr":
+                            tgt = ("local", l.get("did"))
+                        src = kids(x)[1]
+                    if tgt is None:
+                        continue
+                    # also tainted through the loop that contains the store (a bound taken from the height decides how many bits / entries are set)
+                    ctx = [src] + [a["c"][1] for a in tbf.ancestors(x) if a.get("k") == "ForStmt" and a["c"][1] is not None] if x.get("_p") is not None else [src]
+                    dirty = any(reads_height(c_) or any(z.get("k") in ("CallExpr", "CXXMemberCallExpr") and tbf.callee_name(z) in height_helpers for z in walk(c_))
+                                or any(z.get("k") == "DeclRefExpr" and ("local", z.get("did")) in tainted for z in walk(c_)) for c_ in ctx)
+                    if dirty and tgt not in tainted:
+                        tainted.add(tgt)
+                        again = True
+        for kind, nm in tainted:
+            if kind == "member":
+                height_members.setdefault(nm, m)
+        for i in m.get("inits", []):
+            if i.get("member") in fields and i.get("written") and any(reads_height(c_) for c_ in i.get("c", []) if c_):
+                height_members.setdefault(i["member"], m)
+    level_fns = [m for m in methods if any(re.search(r"level", p_.get("name") or "", re.I) for p_ in m["params"])]
+    if len(level_fns) < 6:
+        raise AnalysisBroken("%s: %d functions with a level parameter (8 confirmed by reading)" % (cls, len(level_fns)))
+    res.instance(R, "%s" % cls, facts.loc(methods[0]), "%d functions take a level; height-only helpers %s; members filled from the height %s" % (len(level_fns), sorted(height_helpers) or "none", sorted(height_members) or "none"))
+    n = 0
+    for m in level_fns:
+        seen = set()
+        stack = [(m, [m["name"]])]
+        while stack:
+            g, pathn = stack.pop()
+            if id(g) in seen:
+                continue
+            seen.add(id(g))
+            n += 1
+            for x in walk(tbf.body(g)):
+                bad = None
+                if x.get("k") in ("CallExpr", "CXXMemberCallExpr"):
+                    nm = tbf.callee_name(x)
+                    if nm == "getTreeHeight" or nm in height_helpers:
+                        bad = "calls %s()" % nm
+                    elif nm in byname and (tbf.call_base(x) is None or strip(tbf.call_base(x)).get("k") == "CXXThisExpr"):
+                        for h in byname[nm]:
+                            if h["kind"] not in ("CXXConstructor", "CXXDestructor"):
+                                stack.append((h, pathn + [nm]))
+                elif x.get("k") in ("MemberExpr", "CXXDependentScopeMemberExpr") and x.get("name") in height_members and (not kids(x) or strip(kids(x)[0]).get("k") == "CXXThisExpr"):
+                    bad = "reads the member '%s', which %s fills from the tree height" % (x["name"], height_members[x["name"]]["name"])
+                if bad:
+                    res.violation(R, tbf.rel(facts.path_of(x)), g["qname"], "%s:%s@%d" % (m["name"], bad.split(" ")[1].strip("'()"), x["l"][1]), x["l"][1],
+                                  "%s(..., level, ...) %s%s: what it computes for a level above the leaves is sized for the leaf level (a periodic wrap or a limit taken at 2^(height-1) instead of 2^level)"
+                                  % (m["name"], ("through %s " % " -> ".join(pathn[1:])) if len(pathn) > 1 else "", bad))
+    return n
+
+
 def run(res, tier):
     facts = tbf.scan("core")
     res.units.append("umbrella TU 'core': TbfMortonSpaceIndex, TbfHilbertSpaceIndex, rotation / uniform kernels (closed forms), all non-kernel code (literal-dimension rule)")
@@ -547,9 +642,19 @@ def run(res, tier):
             res.violation("C11.2.shift-type", v["file"], v["function"], v["key"], v["line"], v["msg"] + " - indices of deep levels are no longer in bijection with the grid coordinates")
     res.instance("C11.2.shift-type", "ordering classes", "src/spacial", "%d 32-bit shifts by a run-time amount" % k)
     res.rule("C11.3 sibling agreement: Morton and Hilbert list builders / coordinate clamp / parent-child algebra have equal behavioural atoms; per-cell and per-group builders share limits, wrap shifts, too-close test, child loop, level guards")
-    sibling_builders(facts, res)
+    nv0_ = None
+    deferred_ = []       # a comparison that cannot follow a restructuring must not hide what the other clauses find in the same change
+    try:
+        sibling_builders(facts, res)
+    except AnalysisBroken as e_:
+        deferred_.append(e_)
+        nv0_ = len(res.violations)
     res.rule("C11.4 bit provenance (abstract interpretation, Dim = 1..4): index bit k*Dim+Dim-1-d is a copy of bit k of coordinate d and nothing else, the decoder is its inverse, parent/child-code/child are the matching bit moves (Hilbert: around its two table conversions); hence parent coordinates = child coordinates >> 1 and the child code is the octant, for every input. Termination of the data-dependent loops and the Hilbert tables are not decided")
     bit_laws(facts, res)
+    res.rule("C11.6 level locality (Morton ordering): no function that takes a level reaches, through same-class callees, getTreeHeight(), a height-only helper or a member filled from the height - limits, wrap moduli and masks of level l come from l")
+    res.floor("C11.6", level_locality(facts, res), 8, "functions reachable from level-parameterised functions")
+    if deferred_ and len(res.violations) == nv0_:
+        raise deferred_[0]
     res.rule("C11.5 lists and levels fit together: with the window clamps, wrap and shift, too-close threshold, empty-below level, self exclusion and upper-half filter read from the per-cell builders, every other leaf cell (non periodic) / every unwrapped leaf cell of the images -1..1 (periodic, heights from 1) reaches a target through the near list or the interaction list of exactly one level (rules/decomp.py; Dim 1 and 2)")
     import decomp
     lv = {}
